@@ -21,7 +21,7 @@ pub struct Cfg {
     /// honest responders also list their own id (and a neighbour's id) at addresses that never speak
     pub dup_ids: bool,
     /// 0 none; 1 responder 1 answers get_peers without a token; 2 responder 1 appends a 7-byte entry to its
-    /// values; 3 responder 0 gives no token and responder 2 appends a 19-byte entry
+    /// values; 3 responder 0 gives no token and responder 2 appends a 19-byte entry; 4 tokens of 129 / 300 / 128 bytes
     pub quirk: u8,
     pub rng_seed: u64,
 }
@@ -71,6 +71,9 @@ pub fn build(cfg: &Cfg) -> (Scenario, Vec<Box<dyn Peer>>) {
             (1, 1) | (3, 0) => r.no_token = true,
             (2, 1) => r.odd_value = Some(7),
             (3, 2) => r.odd_value = Some(19),
+            (4, 0) => r.token = vec![b'L'; 129],
+            (4, 1) => r.token = vec![b'M'; 300],
+            (4, 2) => r.token = vec![b'N'; 128],
             _ => {}
         }
         if cfg.dup_ids && i < 2 {
@@ -361,6 +364,8 @@ pub fn run(tier: Tier) -> Report {
         (Cfg { responders: 3, searches: vec![(0, 0, true)], dup_ids: false, quirk: 1, rng_seed: seed }, 1),
         (Cfg { responders: 4, searches: vec![(0, 0, true)], dup_ids: false, quirk: 2, rng_seed: seed }, tier.pick(0, 1)),
         (Cfg { responders: 4, searches: vec![(0, 1, true), (5, 0, false)], dup_ids: false, quirk: 3, rng_seed: seed }, tier.pick(0, 1)),
+        // long tokens are echoed byte for byte
+        (Cfg { responders: 4, searches: vec![(0, 0, true)], dup_ids: false, quirk: 4, rng_seed: seed }, 0),
     ];
     let mut runs = 0u64;
     let mut levels = vec![];
